@@ -31,8 +31,6 @@ CONSTANTS MaxLen, Maxlines, Indents, LinePos, EndSpaces, Avoids,
 VARIABLE st
 vars == <<st>>
 
-Strings == UNION {[1..n -> Src] : n \in 0..MaxLen}
-
 Params(q) == {[indent |-> i, maxline |-> m, endsp |-> e, avoid |-> a,
                safe |-> Safe, quote |-> q] :
                 i \in Indents, m \in Maxlines, e \in EndSpaces, a \in Avoids}
@@ -40,7 +38,8 @@ Params(q) == {[indent |-> i, maxline |-> m, endsp |-> e, avoid |-> a,
 Start(s, lp, P) == [s |-> s, lp0 |-> lp, P |-> P, f |-> FoldInit(Esc(s), lp)]
 
 Init ==
-  \/ \E s \in Strings, lp \in LinePos, P \in Params("Q") : st = Start(s, lp, P)
+  \/ \E n \in 0..MaxLen : \E s \in [1..n -> Src], lp \in LinePos, P \in Params("Q") :
+        st = Start(s, lp, P)
   \/ /\ WithChar16
      /\ \E c \in Src, lp \in LinePos, P \in Params("A") : st = Start(<<c>>, lp, P)
 
